@@ -1,7 +1,7 @@
 (* Entry.v — single extracted entry point [run]: request = VList [VStr name; arg].
    All marshalling is done here in Gallina so that ocaml/driver.ml stays generic. *)
 From Coq Require Import ZArith List Bool String Ascii.
-From Verif Require Import PyStr Normalize NormalizeGen Util UtilGen Toc TocGen Footnote FootnoteGen Cli CliGen StoreGen Rx UnicodeGen RxGen Scanner RefLinks Tmpl HtmlRender TmplGen CodeSpan RxSub RxCost Inline InlineGen Block BlockGen Doc.
+From Verif Require Import PyStr Normalize NormalizeGen Util UtilGen Toc TocGen Footnote FootnoteGen Cli CliGen StoreGen Rx UnicodeGen RxGen Scanner RefLinks Tmpl HtmlRender TmplGen CodeSpan RxSub RxCost Inline InlineGen Block BlockGen Doc HtmlDoc.
 Import ListNotations.
 Open Scope Z_scope.
 
@@ -201,6 +201,12 @@ Definition core_doc_parse (hw : bool) (s : str) : res (list node) :=
   | _, _ => Exn
   end.
 
+(* create_markdown(escape=..., hard_wrap=...)(s): the core configuration with the HTML renderer *)
+Definition html_env (esc : bool) : renv :=
+  {| r_escape := esc; r_safe_url := safe_url harmful_protocols good_data_protocols escape_ops; r_tables := T |}.
+Definition core_html (esc hw : bool) (s : str) : res str :=
+  do ast <- core_doc_parse hw s; Ok (html_doc (html_env esc) escape_ops ast).
+
 Definition run_named (name : str) (arg : pval) : pval :=
   if is_name name "norm" then
     match arg with VStr s => VStr (run_ops parse_norm_ops s) | _ => VErr "arg" end
@@ -376,6 +382,15 @@ Definition run_named (name : str) (arg : pval) : pval :=
     | VList [VStr s; VBool hw] =>
       match core_doc_parse hw s with
       | Ok ns => VList (map enc_node ns)
+      | Exn => VErr "exception"
+      | Fuel => VErr "fuel"
+      end
+    | _ => VErr "arg" end
+  else if is_name name "html" then
+    match arg with
+    | VList [VStr s; VBool esc; VBool hw] =>
+      match core_html esc hw s with
+      | Ok out => VStr out
       | Exn => VErr "exception"
       | Fuel => VErr "fuel"
       end
